@@ -216,6 +216,10 @@ structure TState where
   tree : Tree := []
   s : Dirty.State := {}
   deferred : List Deferred := []
+  /-- layers the font does not listen to yet: a layer made while the layer set's notifications are held is announced
+  (`LayerSet.LayerAdded`) only when the hold is released, and only then does the font register for its
+  `Layer.GlyphAdded / GlyphDeleted / GlyphNameChanged` -/
+  unwired : List Nat := []
   /-- every object a mutator (or a released notification) changed directly, in order: the model's touched sets -/
   hits : List Nat := []
 deriving Repr
@@ -223,11 +227,14 @@ deriving Repr
 def touchT (ts : TState) (x : Nat) : TState :=
   { ts with s := touch ts.s x (up ts.tree x), hits := ts.hits ++ [x] }
 
-/-- post along the relay: a held poster keeps it back, otherwise it travels on; at the end the font writes `tgt` -/
+/-- post along the relay: a held poster keeps it back; a layer the font does not listen to (yet) posts into the void;
+otherwise it travels on; at the end the font writes `tgt` -/
 def relayTo (ts : TState) : List Nat → Nat → TState
   | [], tgt => touchT ts tgt
   | n :: ns, tgt =>
-    if held ts.s n then { ts with deferred := ts.deferred ++ [⟨n, ns, tgt⟩] } else relayTo ts ns tgt
+    if held ts.s n then { ts with deferred := ts.deferred ++ [⟨n, ns, tgt⟩] }
+    else if n ∈ ts.unwired then ts
+    else relayTo ts ns tgt
 
 def targetNodes (t : Tree) (recv : Nat) : Target → List Nat
   | .self => [recv]
@@ -260,7 +267,9 @@ def addSubs (ts : TState) (p : Nat) : List (Kind × Bool) → TState
 
 def addChild (ts : TState) (recv : Nat) (r : Kind) (d : Bool) (sub : List (Kind × Bool)) : TState :=
   let id := ts.tree.length
-  addSubs { ts with tree := addNode ts.tree r recv, s := flagIf ts.s d id } id sub
+  -- a layer made while the layer set is held: the font will hear of it on release
+  let uw := if r = .layer && held ts.s recv then ts.unwired ++ [id] else ts.unwired
+  addSubs { ts with tree := addNode ts.tree r recv, s := flagIf ts.s d id, unwired := uw } id sub
 
 def applyEff (recv : Nat) (ts : TState) : Eff → TState
   | .add r d sub => addChild ts recv r d sub
@@ -304,7 +313,9 @@ def releaseT (ts : TState) (x : Nat) : TState :=
   if last then
     let mine := ts1.deferred.filter (fun d => d.holder = x)
     let others := ts1.deferred.filter (fun d => d.holder ≠ x)
-    mine.foldl repost { ts1 with deferred := others }
+    -- the children of `x` are announced now at the latest (`LayerSet.LayerAdded`): the font listens to them from here on
+    let uw := ts1.unwired.filter (fun l => parentOf ts1.tree l ≠ some x)
+    mine.foldl repost { ts1 with deferred := others, unwired := uw }
   else ts1
 
 def releaseAllT (ts : TState) (ys : List Nat) : TState := ys.foldl releaseT ts
